@@ -34,6 +34,9 @@ func runC01(t *simrt.Tape, o Opts) Outcome {
 	s := simrt.Run(t, cfg, func(s *simrt.Sim) {
 		w = world.New(s, "C01")
 		st.Oracle = map[string]int{}
+		if t.Choose(4, "memstore") == 1 {
+			w.UseMemoryMetastore()
+		}
 		h := &hist{w: w, t: t, parts: world.Partitions[:1+t.Choose(4, "nparts")], maxProc: 3}
 		h.gen = world.GenOpts{SmallCaps: t.Choose(2, "smallcaps") == 1, NoSimple: t.Choose(3, "nosimple") == 1, AllowTinyLFU: allowTinyLFU}
 		h.weights = [opKinds]int{opEncrypt: 8, opDecrypt: 8, opOpen: 2, opCloseSess: 2, opAdvance: 3, opRevoke: 1, opForeignRotate: 1, opRestart: 1, opCrash: 1, opNewProc: 1}
